@@ -156,7 +156,7 @@ pub fn report(
         let key = format!("violations:{sig}");
         let seen = out.counters.get(&key).copied().unwrap_or(0);
         out.count(&key, 1);
-        if seen == 0 {
+        if seen == 0 && !cfg!(miri) {
             let small = minimise(c, sig, 400, violations);
             let d2 = violations(&small).into_iter().find(|v| &v.0 == sig).map(|v| v.1).unwrap_or(detail.clone());
             out.violation(
